@@ -335,6 +335,7 @@ class Facts:
         self.field_aliases = {}
         self.inlined = {}
         self.absorbed = set()
+        self.reparented = {}
         if aliases:
             texts = None
 
@@ -373,7 +374,25 @@ class Facts:
             if tbl:
                 from . import inline as _inline
 
-                self.inlined, self.absorbed = _inline.inline_new_helpers([d for _, d in raw], lambda b, crate: _fp_candidate(b, crate) and b["path"] not in tbl)
+                is_new = lambda b, crate: _fp_candidate(b, crate) and b["path"] not in tbl
+                # (a) helpers of helpers first, then (b) a function that was moved *and* split up is recognised by what it
+                # calls once its own helpers are back inside it, then (c) everything that is still unknown goes into its callers
+                done_a, _, rep_a = _inline.inline_new_helpers([d for _, d in raw], is_new, only_into_new=True)
+                fa2 = renamed_functions([d for _, d in raw], config)
+                if fa2:
+                    rxs = [(re.compile(r"(?<![A-Za-z0-9_])" + re.escape(n) + r"(?![A-Za-z0-9_])"), c) for n, c in sorted(fa2.items(), key=lambda kv: -len(kv[0]))]
+                    raw2 = []
+                    for f, d in raw:
+                        text = json.dumps(d)
+                        for rx, c in rxs:
+                            text = rx.sub(lambda m, c=c: c, text)
+                        raw2.append((f, json.loads(text)))
+                    raw = raw2
+                    self.aliases.update(fa2)
+                if fa2:
+                    done_a = {fa2.get(h, h): [fa2.get(c, c) for c in cs] for h, cs in done_a.items()}
+                self.inlined, self.absorbed, self.reparented = _inline.inline_new_helpers([d for _, d in raw], is_new, prior=done_a)
+                self.reparented.update(rep_a)
         self._is_async_helper = {b["path"]: bool(b.get("asyncness")) for _, d in raw for b in d["bodies"] if b["path"] in self.absorbed}
         for f, d in raw:
             cname = d["crate"]
@@ -409,6 +428,10 @@ class Facts:
             for p in d["decl_only_fns"]:
                 self.decl_only.add(p)
         self._children = None
+        # types the pinned tree does not have (a parameter bundle introduced by a refactor): the tracer looks through
+        # their fields instead of stopping at them
+        at = _load_adt_table() if aliases else {}
+        self.new_adts = {p for p, a in self.adts.items() if at and p not in at and p.startswith("jsonrpsee") and "{" not in p and not _TEST_RX.search(p)}
 
     # ---- lookup ---------------------------------------------------------------------------
     def body(self, path):
@@ -434,7 +457,7 @@ class Facts:
             ch = {}
             for b in self.bodies.values():
                 if b.parent:
-                    ch.setdefault(b.parent, []).append(b)
+                    ch.setdefault(self.reparented.get(b.parent, b.parent), []).append(b)
             # closures written inside a helper that was inlined belong to the callers as well
             for h, callers in self.inlined.items():
                 extra = [c for c in ch.get(h, []) if c.path != h + "::{closure#0}"] + ch.get(h + "::{closure#0}", [])
@@ -532,7 +555,8 @@ def fn_callees(raws):
     parent = {}
     for d in raws:
         for b in d["bodies"]:
-            parent.setdefault(b["path"], b.get("parent"))
+            # only closures are folded into the function they are written in; a nested `fn` is a function of its own
+            parent.setdefault(b["path"], b.get("parent") if b["kind"] == "Closure" else None)
             cs = own.setdefault(b["path"], set())
             for blk in b["blocks"]:
                 t = blk["term"]
